@@ -28,7 +28,8 @@ prop('C01', prefix=['c01'], bounds=UM_BOUNDS, outside=UM_OUT)
 prop('C02', prefix=['c01', 'c02'], bounds=UM_BOUNDS + '; History cursor: any sequence of <=4 push/undo/redo calls', outside=UM_OUT)
 prop('C03', prefix=['c03'], bounds=UM_BOUNDS + '; replica = second model of the same workbook applying the recorded send queue (bitcode cut out)',
      outside=UM_OUT + '; the serialization of the queue')
-prop('C04', prefix=['c04'], bounds=UM_BOUNDS + '; arguments unconstrained (any i32/u32/f64 incl. negative, NaN, out of grid, nonexistent sheet)',
+prop('C04', prefix=['c04'], bounds=UM_BOUNDS + '; arguments unconstrained (any i32/u32/f64 incl. negative, NaN, out of grid, nonexistent sheet); block moves (<=2 lines, |offset| <=2) '
+     'starting within 3 lines of the end of the grid on a sheet with two number cells in the last three rows / columns',
      outside=UM_OUT + '; operations taking text that needs parsing')
 prop('C28', prefix=['c01', 'c28'], bounds=UM_BOUNDS + '; selection setters with unconstrained arguments',
      outside='keyboard navigation / page up-down (pixel arithmetic over float sums), duplicate_sheet (parser), operations on sheets with cells')
@@ -43,7 +44,7 @@ prop('C09', prefix=['c09'],
             '(display form, en) and parsed back by the real lexer + parser; value-preserving re-associations (a+(b+c), a+(b-c), a&(b&c), -(a*b), -(a/b)) are not demanded',
      outside='deeper trees, functions, ranges, sheet-qualified references, arrays, LAMBDA/LET, implicit intersection, the xlsx export form, other languages/locales')
 prop('C11', prefix=['c11'],
-     bounds='every ASCII string of length <=3 (<=4 thorough) through the real formula lexer in A1 and R1C1 mode (en locale/language) until EOF, and through the '
+     bounds='every ASCII string of length <=3 through the real formula lexer in A1 and R1C1 mode (en locale/language) until EOF; `$` + 1..=10 arbitrary upper-case letters + `1` through the lexer; and through the '
             'number-format lexer + parser and the date-format detector; length <=4 through column_to_number, parse_reference_a1/r1c1, is_valid_identifier, '
             'is_valid_column, quote_name.  The number recogniser (C19) and the F4 kernel (C34) are panic-checked by their own harnesses',
      outside='the formula parser, formula completion, set_user_input on the models, the number formatter (float to digits), non-ASCII text, longer strings, '
@@ -62,14 +63,16 @@ prop('C14', prefix=['c14'],
      outside='cell content, value types, formula text as a whole, computed values')
 prop('C15', prefix=['c15'],
      bounds='single-line move of a reference: any offset inside the grid; CF chain block <=2 (quick) / <=3 (thorough); Model::move_rows_action '
-            'block <=3, |offset| <=2, <=1 row record, 1 link (thorough: <=2 records, |offset| <=3); move_columns_action block <=2, |offset| <=2, '
-            '<=1 descriptor, 1 link (thorough: <=2 descriptors, block <=3, |offset| <=3)',
+            'block <=3, |offset| <=2, <=1 row record, 1 link (thorough: |offset| <=3); move_columns_action block <=1, |offset| <=2, '
+            '<=1 descriptor, 1 link (thorough: block <=2, |offset| <=3)',
      outside='cell content re-entry, array-formula split checks, values, ranges under moves')
 prop('C16', prefix=['c16'],
      bounds='ref_is_in_area: any in-grid i32 and sheet ids; cut/copy: formula cell, reference targets, cut area and paste offsets inside rows 1..=120 x '
-            'columns 1..=30 (offsets of either sign), same or other target sheet, reference on the cut sheet or another; ranges with absolute corners',
-     outside='the moved-formula printer for operators, functions, arrays and separators (known to drop parentheses), paste orchestration in clipboard.rs, '
-             'conditional-format ranges and defined names under cut, values, the parser that builds the nodes')
+            'columns 1..=30 (offsets of either sign), same or other target sheet, reference on the cut sheet or another; ranges with absolute corners; '
+            'Model::get_external_formula_updates_for_cut on two sheets with `=B2+$C$3` at E5 and `=Sheet1!B2*2` on Sheet2 (typed through the real parser), '
+            'cut area anywhere in rows/columns 1..=6 up to 3x3, paste target rows 1..=12 x columns 1..=9',
+     outside='the moved-formula printer for operators other than +, functions, arrays and separators (known to drop parentheses), paste orchestration in '
+             'clipboard.rs, conditional-format ranges and defined names under cut, values, ranges in the Model-level harness')
 prop('C17', prefix=['c17'],
      bounds='three sheets; `=Sheet2!A1+Sheet3!$B$2+Ghost!C3+D4+Ghost!A1:B2` on Sheet1 and `=A1*Sheet1!B5` on Sheet2, typed through the real parser; rename of '
             'any of the three sheets to one of New / My Sheet / a&b / TRUE; move of any sheet to any index',
@@ -86,8 +89,11 @@ prop('C19', prefix=['c19'],
              'handling, non-ASCII currency symbols and separators, what Model::set_user_input does with the result')
 prop('C22', prefix=['c22'],
      bounds='all 16384 column numbers (one symbolic i32); every ASCII column string of length 0..=4; every valid sheet name over printable ASCII of '
-            'length <=2 (<=3 thorough) quoted by quote_name and read back by the real lexer',
-     outside='A1/R1C1 print->parse of references and ranges (the A1 printer is checked against an independent text builder under C16), longer and non-ASCII sheet names')
+            'length <=2 (<=3 thorough) quoted by quote_name and read back by the real lexer; cell addresses with row in {1,2,6,1048575,1048576} x column in '
+            '{1,2,6,16383,16384} and ranges over {whole grid, line after the formula cell..last, first..line after, two inner lines, one line} per axis, every '
+            '$ combination, formula cell E5, printed in the display (A1) and stored (R1C1) forms and parsed back by the real lexer+parser',
+     outside='other coordinates and formula cells for the print->parse round trip (the A1 printer is checked against an independent text builder over a '
+             'symbolic window under C16), sheet-qualified addresses through the parser, longer and non-ASCII sheet names')
 prop('C27', prefix=['c27', 'c29'],
      bounds='<=2 column descriptors / <=2 row records (in-grid, well-formed pre-state), one Model-level structural edit '
             '(insert/delete any position and count; move block <=2, offset <=2) on a cell-free sheet',
@@ -109,8 +115,9 @@ prop('C31', prefix=['c31'],
      outside='staleness across evaluation passes (evaluate_cell clearing old spills), undo, structural edits and paste - histories through the evaluator; larger results')
 prop('C33', prefix=['c33'],
      bounds='CF coordinates: row/column/position/count/offset any i32 inside the grid, sheet ids any u32; links: 2 links at any distinct in-grid '
-            'cells, insert/delete any position and count, block move <=2 by |offset| <=2',
-     outside='CF rule formulas (parser), sqref strings, clear-removes-link and its undo, cut/paste orchestration')
+            'cells, insert/delete any position and count, block move <=2 by |offset| <=2; a CellIs/Between rule on G20:H22 with bounds B2 and $C$3 under insert/delete of '
+            '<=5 rows/columns at positions 1..=6 (rule formulas through the real parser and displaced printer)',
+     outside='other CF rule kinds and formulas, rule formulas under moves and cut/paste, sqref strings, clear-removes-link and its undo, cut/paste orchestration')
 prop('C34', prefix=['c34'],
      bounds='reference/range token texts assembled from symbolic pieces: optional leading space, no / unquoted 2-letter / quoted sheet prefix, endpoints '
             '[$]letters{1,2}[$]digits{1,2} | [$]letters | [$]digits, single or a:b; arbitrary ASCII text of length <=4 (<=6 thorough) for "touches only $ and case"; '
